@@ -229,8 +229,12 @@ def main(argv=None):
         with ctx.Pool(jobs, maxtasksperchild=int(os.environ.get("VERIF_TASKS_PER_CHILD", "64"))) as pool:
             stop_first = os.environ.get("VERIF_STOP_AT_FIRST") == "1"  # evaluation of changed trees only: first report is enough
             fnd = load_findings() if stop_first else None
+            progress, done = os.environ.get("VERIF_PROGRESS") == "1", 0
             for r in pool.imap_unordered(_worker, [(modname, units[i]) for i in order], chunksize=1):
                 acc.merge(r)
+                done += 1
+                if progress and done % 50 == 0:
+                    print(f"progress {done}/{len(units)} units {time.time() - t0:.0f}s", file=sys.stderr, flush=True)
                 if stop_first and any(match_finding(prop, v["fp"], fnd) is None for v in acc.viol.values()):
                     acc.notes.append("stopped at the first violation (VERIF_STOP_AT_FIRST=1): coverage figures are partial")
                     pool.terminate()
